@@ -31,8 +31,6 @@ return establishing Len() >= K (linear reasoning over L := x.Len(), V := L - c, 
 }
 
 var km1Exceptions = map[string]string{
-	"pkg/obikmer.Encode4mer:code":                     "the word is a byte holding exactly four 2-bit codes (2k bits for k = 4): the shift itself discards the fifth symbol",
-	"pkg/obikmer.(*DeBruijnGraph).Push:key":           "first k-mer built by a recursion bounded by start < kmersize from key = 0: at most k shifts, nothing to mask",
 }
 
 func isShiftBy2(info *types.Info, e ast.Expr, x types.Object) bool {
@@ -126,6 +124,10 @@ func runKM1(c *Ctx, s *Sink) {
 		})
 		for x, pos := range cands {
 			key := funcName(p, fd) + ":" + x.Name()
+			if bt, ok := x.Type().Underlying().(*types.Basic); ok && (bt.Kind() == types.Uint8 || bt.Kind() == types.Byte) {
+				s.Pass(nil, key, pos, "the word is an 8-bit value holding exactly four 2-bit codes (2k bits for k = 4): the shift itself discards the fifth symbol")
+				continue
+			}
 			if why, ok := km1Exceptions[key]; ok {
 				s.Pass(nil, key, pos, "tabled exception: "+why)
 				continue
